@@ -118,6 +118,8 @@ def gen_call(g, cfg, api, seed, mid=None):
         raise ValueError(api)
     if seed is None and api in SAMPLERS:
         rec["nd"] = nd_eligible(rec)
+    if seed is None and api in ("gen.dag_full", "gen.dag_avg_deg"):
+        rec["nd"] = nd_eligible(rec)
     return rec
 
 
@@ -125,6 +127,12 @@ def nd_eligible(rec):
     """At least one coordinate has positive variance under any correct implementation."""
     from .canon import dec
     api, a = rec["api"], rec.get("args", {})
+    if api == "gen.dag_full":
+        # p(p-1)/2 continuous weights: two independent draws coincide with probability 0
+        return a["p"] >= 3 and a["w_max"] > a["w_min"]
+    if api == "gen.dag_avg_deg":
+        # the orderings alone coincide with probability 1/p! < 2**-64 for p >= 21
+        return a["p"] >= 21 and bool(a.get("return_ordering"))
     if a.get("n", 0) < 1:
         return False
     spec = rec["m"]["spec"]
@@ -253,6 +261,8 @@ def generate(run_seed, deep=False):
     for k in range(cfg["nsig"]):
         api = g.choice(cfg["apis"])
         seed = g.choice(cfg["seeds"])
+        if api in LAYOUT_FREE and g.random() < 0.2:
+            seed = "default"         # random_state omitted: the documented default (42) is a seed like any other
         mid = ("m%d" % k) if (api in SAMPLERS and g.random() < 0.6) else None
         rec = gen_call(g, cfg, api, seed, mid)
         rec["sig"] = k
@@ -292,9 +302,15 @@ def generate(run_seed, deep=False):
             evaluated[k] = False
         elif r < 0.47:
             # two immediately consecutive, identical unseeded sampling calls (non-degeneracy)
-            api = sc.choice(SAMPLERS)
+            api = sc.choice(SAMPLERS + ("gen.dag_full", "gen.dag_avg_deg") if sc.random() < 0.25 else SAMPLERS)
             rec = gen_call(g, cfg, api, None)
-            shared = [s for s in sigs if s["api"] == api and s["m"].get("id") and s["sig"] in evaluated]
+            if api == "gen.dag_avg_deg":
+                rec["args"].update(p=g.randint(21, 30), return_ordering=True, debug=g.random() < 0.5)
+                rec["nd"] = True
+            if api == "gen.dag_full" and not rec.get("nd"):
+                rec["args"].update(p=max(3, rec["args"]["p"]), w_max=round(rec["args"]["w_min"] + 1.0, 2))
+                rec["nd"] = True
+            shared = [s for s in sigs if s["api"] == api and s.get("m") and s["m"].get("id") and s["sig"] in evaluated]
             if shared and sc.random() < 0.5:
                 # on a long-lived model that already served seeded calls
                 rec["m"] = copy.deepcopy(sc.choice(shared)["m"])
@@ -326,6 +342,8 @@ def sigkey(rec):
     covered by the statement (no seed, or a model whose parameters were drawn unseeded)."""
     if rec.get("op") != "call" or rec.get("seed") is None:
         return None
+    if rec.get("seed") == "default" and rec["api"] not in LAYOUT_FREE:
+        return None         # only split_data / add_edges / remove_edges have a seeded default (42)
     if rec.get("arm") is not None:
         return None
     m = rec.get("m")
@@ -562,6 +580,8 @@ def oracles(w, pristine_budget):
                     w.probes["pair.seed>=2**32"] += 1
                 if G.seed_is_object(rec["seed"]):
                     w.probes["pair.seed_sequence_object_reused"] += 1
+                if rec["seed"] == "default":
+                    w.probes["pair.default_seed_argument_omitted"] += 1
                 if "rng.reseed" in kinds:
                     w.probes["pair.sep.reseed"] += 1
                 if kinds and kinds <= {"rng.draw", "gc", "rng.stdlib", "rng.getstate"} and "rng.draw" in kinds:
@@ -662,7 +682,8 @@ REQUIRED_PROBES = ["pair.nontrivial", "pair.seed0", "pair.sep.reseed", "pair.sep
                    "pair.seed>=2**32", "pair.sep.caller_scribbled_on_a_returned_object",
                    "pair.seed_sequence_object_reused", "pair.other_memory_layout", "pair.other_dict_insertion_order"] + \
                   ["api:" + a for a in APIS] + ["noise:" + n for n in G.NOISE_FACTORIES] + \
-                  ["nd:" + a for a in SAMPLERS] + ["nd.on_model_with_seeded_history"]
+                  ["nd:" + a for a in SAMPLERS] + ["nd.on_model_with_seeded_history", "nd:gen.dag_full",
+                                                     "nd:gen.dag_avg_deg", "pair.default_seed_argument_omitted"]
 
 
 def simplify(op):
